@@ -35,7 +35,8 @@ META = {
             "(non-vacuity: tests/files/good-1-check-crc32.xz evaluated in the kernel). Also proved: .lzma and .lz truncation "
             "(lzma_prefix_free(_model), lzip_prefix_free(_model)), CRC32/CRC64 burst detection up to 32/64 bits (crc32_burst_detected, "
             "crc64_burst_detected), flips in later Streams / Stream Padding under CONCATENATED (header_bitflip_rejected_partial), and the "
-            "whole-file payload-damage theorem with corrected hypotheses (payload_damage_needs_collision_whole: Stream = whole file, "
+            "whole-file payload-damage theorem with corrected hypotheses and a collision disjunct tied to the SAME Block of the two files (BlockAt; "
+            "payload_damage_needs_collision_whole: Stream = whole file, "
             "supported Check other than None; the earlier statement was false as written). Not theorems: rejection of a flip in a Block "
             "Header Size byte or the Index Indicator (would need a CRC32 coincidence to be excluded). Multi-byte damage is covered only up "
             "to a Check collision. The threaded decoder is "
